@@ -252,3 +252,20 @@ class _Builder:
 
 def build_cfg(fn: ast.FunctionDef | ast.Lambda) -> CFG:
     return _Builder().build(fn)
+
+
+def forward_may(g: CFG, init: frozenset, transfer) -> dict[int, frozenset]:
+    """forward 'may' dataflow (join = union) over the CFG; `transfer(node, in_state) -> out_state`.
+    returns the IN state of every node"""
+    IN: dict[int, frozenset] = {g.entry.id: init}
+    work = [g.entry]
+    while work:
+        n = work.pop()
+        out = transfer(n, IN.get(n.id, frozenset())) if n.ast is not None else IN.get(n.id, frozenset())
+        for s, _ in n.succ:
+            old = IN.get(s.id)
+            new = out if old is None else (old | out)
+            if old is None or new != old:
+                IN[s.id] = new
+                work.append(s)
+    return IN
